@@ -10,6 +10,10 @@ CHECKS = {
          "The real h2 relay (Config.Proxy; tls.Dial replaced by a dial seam) runs between two frame-level endpoints over simnet under the gosim scheduler: all single-stream lifecycle shapes (1..3 header fragments x priority x padded/unpadded/empty DATA shapes x END_STREAM/trailers/RST/open) in both directions, duplex pairs with schedule exploration, all interleavings of two/three streams' lifecycles, byte-level transport segmentations and preface splits (with schedule exploration), receiver windows that block DATA while trailers and other streams' header blocks are pending, PUSH_PROMISE, PRIORITY, SETTINGS/PING/GOAWAY, HPACK table scenarios; oracle: per stream and direction the receiver's events (header blocks decoded with its own HPACK decoder in arrival order, DATA boundary-insensitive) equal the sender's.",
          "Endpoints use the same x/net Framer as the relay; K<=3 streams; default schedule for pure input families, <=1/2 deviations elsewhere.",
          "bounded-exhaustive frame-script enumeration + stateless schedule enumeration of the implementation (gosim)", "gosim", "DESIGN.md §7 C08"),
+ "C09": ("model_checking",
+         "Explicit-state search over environment event histories on the real h2 relay: after a fixed opening every history of DATA (sizes 0..40000, padded or not, END_STREAM) / SETTINGS(INITIAL_WINDOW_SIZE, MAX_FRAME_SIZE) / WINDOW_UPDATE(stream or connection) events up to depth 3-5 is replayed on a fresh relay from receiver windows {0,2,default} in both directions, each event followed by run-to-quiescence; invariants I1 (never exceed stream/connection credit), I2 (max frame size), I3 (exact credit returned, padding included), I4 (no stranding at frame granularity) are evaluated in every reached ledger state; plus concurrent DATA/WINDOW_UPDATE scripts under schedule exploration.",
+         "2 streams; alphabet sizes/increments; MAX_FRAME_SIZE only raised; no state deduplication (every history replayed).",
+         "explicit-state search over event histories on the implementation (gosim) + schedule enumeration", "gosim", "DESIGN.md §7 C09"),
  "C17": ("model_checking",
          "All operation sequences up to length 6 (quick) / 7 (thorough) over a 9-operation alphabet are run on the real har.Logger and compared step by step with a list model; 2-3 thread scenarios on colliding ids are run under the gosim scheduler with every interleaving of the logger's lock operations enumerated and each recorded history checked for linearizability against the same model.",
          "Scheduling points are synchronisation operations only (lock/atomic/channel); ids {a,b,c}; bodiless request/response shapes.",
